@@ -391,3 +391,17 @@ def typeparser_named_tuple(case, why):
     return (case.get("act") == "type" and "cannot be parsed back" in why
             and any(n["k"] == "rec" and n["tup"] == 1 and n.get("nm") and n["nm"] not in kw and not n.get("ps") and len(n["xs"]) > 0
                     for n in _tnodes(case["tree"])))
+
+
+def numba_regular_size0_length(case, why):
+    """F51: boxing a view back from Numba rebuilds a size-0 RegularArray without its zeros_length."""
+    if case.get("act") != "numba":
+        return False
+
+    def has(L):
+        if not isinstance(L, dict):
+            return False
+        if L.get("c") == "Regular" and L.get("size") == 0 and L.get("zl", 0) > 0:
+            return True
+        return ("x" in L and has(L["x"])) or any(has(x) for x in L.get("xs", []))
+    return has(case.get("from")) and case.get("args", {}).get("prog") in ("range", "at", "range_at", "at_range", "at_at", "at_len", "field_x", "field_x_at")
